@@ -145,6 +145,39 @@ def make_cells(tier):
                                  "t:" + ("0" if c["t"] == 0 else "T" if c["t"] == c["T"] else "inside" if 0 < c["t"] < c["T"] else "outside")],
                       quick=1200, thorough=30000))
 
+    # ---- the class used directly with numeric control points (DM / numpy / SX constants), one object used several times
+    @st.composite
+    def reuse_case(draw):
+        n = draw(st.integers(1, 6))
+        m = draw(st.integers(1, 3))
+        T = draw(dyT)
+        ops = [(draw(st.integers(0, n)), T * draw(st.integers(0, 64)) / 64.0) for _ in range(draw(st.integers(2, 4)))]
+        return {"n": n, "m": m, "T": T, "P": [[draw(dy16) for _ in range(n + 1)] for _ in range(m)], "ops": ops,
+                "kind": draw(st.sampled_from(["DM", "DM", "numpy", "SX"]))}
+
+    def check_reuse(case):
+        n, m, T = case["n"], case["m"], case["T"]
+        require(1 <= n <= 8 and 1 <= m <= 3 and T >= 2.0 ** -21 and all(0 <= k <= n for k, _ in case["ops"]))
+        P0 = np.array(case["P"], float)
+        P = {"DM": ca.DM(P0), "numpy": P0.copy(), "SX": ca.SX(ca.DM(P0))}[case["kind"]]
+        with cy.quiet():
+            c = bez().Bezier(P, T)
+            for step, (k, t) in enumerate(case["ops"]):
+                cc = c.deriv(k) if k else c
+                got = np.array(ca.evalf(ca.densify(ca.SX(cc.eval(t)))), float).reshape(-1)
+                if got.shape[0] != m:
+                    raise Violation("Bezier (numeric control points): operation %d returns %d values for a %d-dimensional curve" % (step, got.shape[0], m), **case)
+                for i in range(m):
+                    want, mag = exact_curve(case["P"][i], T, t, k)
+                    cmp(got[i], want, mag, "Bezier on %s control points, operation %d on the same object (derivative order %d, t = %g), "
+                        "coordinate %d" % (case["kind"], step, k, t, i), **case)
+        after = np.array(ca.DM(P) if case["kind"] != "SX" else ca.evalf(P), float).reshape(m, n + 1)
+        if not np.array_equal(after, P0):
+            raise Violation("Bezier changed the caller's %s control points: %s -> %s" % (case["kind"], P0.tolist(), after.tolist()), **case)
+
+    cells.append(Cell("curve/numeric_reuse", reuse_case(), check_reuse, lambda c: any(len(set(r)) > 1 for r in c["P"]),
+                      lambda c: ["kind:" + c["kind"]], quick=400, thorough=6000))
+
     # ---- boundary value solvers
     def bc_cell(name, solve, nb, labels):
         @st.composite
